@@ -17,6 +17,7 @@
 
 #include <algorithm>
 #include <cctype>
+#include <charconv>
 #include <ctime>
 #include <fstream>
 #include <map>
@@ -809,6 +810,27 @@ private:
   }
 
 public:
+  /// \brief Parse a chunk-size line (without its CRLF) strictly as
+  /// 1*HEXDIG [ BWS ";" chunk-ext ] (RFC 9112 §7.1). std::stoul/stoull would also
+  /// take " 5", "+5", "-0", "0x5" and "5junk". Never throws; false on any
+  /// violation or overflow.
+  static bool parseChunkSizeLine(const std::string &line, std::size_t &chunkSize)
+  {
+    std::size_t digits = 0;
+    while (digits < line.size() && std::isxdigit(static_cast<unsigned char>(line[digits])))
+    {
+      ++digits;
+    }
+    auto parsed = std::from_chars(line.data(), line.data() + digits, chunkSize, 16);
+    if (digits == 0 || parsed.ec != std::errc() || parsed.ptr != line.data() + digits)
+    {
+      return false;
+    }
+    // Only a chunk extension may follow the digits, with optional BWS before its ';'.
+    auto ext = line.find_first_not_of(" \t", digits);
+    return digits == line.size() || (ext != std::string::npos && line[ext] == ';');
+  }
+
   /// \brief Remove chunked transfer-coding framing (RFC 9112 §7.1) from a complete
   /// message body. Also used by HttpServer for chunked request bodies.
   static std::string parseChunkedBody(const std::string &chunkedData)
@@ -830,11 +852,7 @@ public:
 
       // Parse chunk size (hex)
       std::size_t chunkSize;
-      try
-      {
-        chunkSize = std::stoull(line, nullptr, 16);
-      }
-      catch (...)
+      if (!parseChunkSizeLine(line, chunkSize))
       {
         break; // Invalid chunk size
       }
